@@ -30,6 +30,12 @@
 //! shapes, so they go wrong differently. The proposed patch repairs the push-down path only. `window-builder-default-frame` — `ExprFunctionExt::order_by(..).build()` without a frame
 //! builds ROWS UNBOUNDED PRECEDING..CURRENT ROW (it passes "has an ORDER BY" where WindowFrame::new expects "ordering is
 //! strict"), while SQL text without a frame means RANGE: peers (rows with equal keys) get different running aggregates.
+//! `interleave-assertion` (thorough tier; both sides fail): `df.join(t0 on id).with_column(max(f) OVER (PARTITION BY id)).union(same)` fails
+//! while planning with `Internal error: Assertion failed: can_interleave(children.iter())` raised by EnsureRequirements (2 MemTable
+//! partitions, target_partitions = 1); no repair proposed.
+//! `aggregate-statistics-name-assertion` (thorough tier; both sides fail): a global `count(x) FILTER (WHERE <folds to false>)` above
+//! another aggregate fails while planning with `Internal error: Assertion failed: col.name() == matching_name: Input field name c2 does
+//! not match with the projection expression c5` raised by the aggregate_statistics physical optimizer rule; no repair proposed.
 //! Side findings of the thorough tier (SQL side only, discarded as `sql side internal error`, histogrammed): nested INTERSECT ALL /
 //! window / UNION BY NAME text fails in EnsureRequirements with `Assertion failed: can_interleave(children.iter())`; an aggregate
 //! `count(x + x) FILTER (WHERE ..)` over nested derived tables fails in aggregate_statistics with `Input field name count(Int64(1))
@@ -885,6 +891,14 @@ fn evaluate(case: &Case) -> (CaseResult, Option<String>) {
 /// shape of the known finding `offset-only-limit-under-sort`: rows differ and a skip-only limit sits under a later sort
 fn failure_signature(case: &Case, r: &CaseResult) -> Option<String> {
     let Outcome::Violation(m) = &r.outcome else { return None };
+    if m.contains("can_interleave(children.iter())") {
+        // known finding `interleave-assertion`: EnsureRequirements' InterleaveExec assertion (union of hash-partitioned window branches)
+        return Some("interleave-assertion".to_string());
+    }
+    if m.contains("col.name() == matching_name") {
+        // known finding `aggregate-statistics-name-assertion`: the aggregate_statistics rule's projection-name assertion
+        return Some("aggregate-statistics-name-assertion".to_string());
+    }
     if !m.starts_with("DataFrame rows differ") {
         return None;
     }
@@ -983,9 +997,29 @@ fn evaluate_uncached(case: &Case) -> CaseResult {
                     return CaseResult::inconclusive(format!("both sides name the columns {dn:?}, the chain AST predicts {expect:?}")).labels(labels);
                 }
                 let ordered = matches!(case.ops.last(), Some(Op::Sort { .. } | Op::SortLimit { .. }));
-                let diff = if ordered { refsql::sequence_diff(sr, dr) } else { refsql::multiset_diff(sr, dr) };
-                if let Some(d) = diff {
-                    return CaseResult::violation(format!("DataFrame rows differ from the SQL rows ({}): expected = sql, got = dataframe: {d}{}", if ordered { "sequence" } else { "multiset" }, repro())).labels(labels);
+                if let Some(d) = refsql::multiset_diff(sr, dr) {
+                    return CaseResult::violation(format!("DataFrame rows differ from the SQL rows (multiset): expected = sql, got = dataframe: {d}{}", repro())).labels(labels);
+                }
+                if ordered {
+                    // the chain ends in a total sort: the DataFrame must deliver that order whenever the SQL side does. (Sequence equality
+                    // would also blame the DataFrame for an ORDER BY that the engine honours on neither side — seen once in the thorough
+                    // tier for sort(window(unnest(..))); that is a sorting defect, not a DataFrame/SQL difference: label + discard.)
+                    let keys = match case.ops.last() {
+                        Some(Op::Sort { keys } | Op::SortLimit { keys, .. }) => keys.clone(),
+                        _ => vec![],
+                    };
+                    let df_unsorted = refsql::sortedness_violation(dn, dr, &keys);
+                    let sql_unsorted = refsql::sortedness_violation(sn, sr, &keys);
+                    match (df_unsorted, sql_unsorted) {
+                        (None, None) => {
+                            if let Some(d) = refsql::sequence_diff(sr, dr) {
+                                return CaseResult::violation(format!("both sides are sorted by the final keys but the sequences differ although the order is total: {d}{}", repro())).labels(labels);
+                            }
+                        }
+                        (Some(m), None) => return CaseResult::violation(format!("the DataFrame result is not in the order of its final sort (the SQL result is): {m}{}", repro())).labels(labels),
+                        (None, Some(_)) => return CaseResult::discard("the SQL result is not sorted by its ORDER BY (the DataFrame result is)").labels(labels).label("sql-side-unsorted"),
+                        (Some(_), Some(_)) => return CaseResult::discard("neither side delivers the final sort order (multisets agree)").labels(labels).label("both-sides-unsorted"),
+                    }
                 }
                 let special = case.ops.iter().any(|o| {
                     matches!(o, Op::JoinOn { .. } | Op::DistinctOn { .. } | Op::Unnest { .. } | Op::Window { .. } | Op::SetOp { kind: SetKind::UnionByName | SetKind::UnionByNameDistinct, .. })
